@@ -545,3 +545,14 @@ def c20_object_use(ctx, case):
     ctx.check(_same_scalar(obj.enbw, W.enbw(w)), "Window.enbw=%r after use, enbw(samples)=%r" % (obj.enbw, W.enbw(w)), sig=sig)
     # the factory itself must not have been affected either
     ctx.check(_same(W.create_window(N, name), w), "create_window(%d, %r) changed after a Window object was used" % (N, name), sig=sig)
+
+
+# ---- call-form invariance (documented parameter names) ----------------------------
+from vlib import kwcheck as _kw   # noqa: E402
+
+
+@sub("C20.keywords", strategy=_kw.kw_case(_kw.PROPS["C20"]), quick=200, thorough=4000,
+     doc="the same call with its trailing arguments given by their documented names (any split, any order) returns the same "
+         "result as the positional call, and every documented name is accepted: " + ", ".join(_kw.PROPS["C20"]))
+def c20_keywords(ctx, case):
+    _kw.body(ctx, case)
